@@ -49,6 +49,11 @@ inductive NCmd where
       -- the subject does not expand; per item: (a pattern matches, evaluating the patterns fails before any
       -- match, body, continuation)
   | async (body : List NCmd)                -- `{ body; } & wait`
+  -- third pass of wave 3
+  | forPos (body : List NCmd)               -- `for v do …`: one iteration per positional parameter
+  | polled (c : NCmd)
+      -- the boundary of `impl Command for syntax::Command`: the command, then `run_traps_for_caught_signals`
+      -- (the harness wraps every simple / compound command of a case that sets a signal trap)
 
 /-- `impl Command for syntax::List`: the items in turn, `?` on each result -/
 def execSeq {α : Type} (f : St → α → St × Res) : St → List α → St × Res
@@ -98,7 +103,7 @@ mutual
          | .outOfFuel => (s, .outOfFuel)
          | r =>
            let c2 := y.1.applyResult r
-           let s1 := { s with status := c2.status, trace := c2.trace }
+           let s1 := { s with status := c2.status, trace := c2.trace, pending := c2.pending }
            (s1, s1.applyErrexit))
       | .ifc cond body els =>
         -- `evaluate_condition(env, condition).await?`
@@ -166,11 +171,22 @@ mutual
          | .outOfFuel => (s, .outOfFuel)
          | r =>
            let c2 := y.1.applyResult r
-           let s1 := { s with status := SUCCESS, trace := c2.trace }
+           let s1 := { s with status := SUCCESS, trace := c2.trace, pending := c2.pending }
            (s1, s1.applyErrexit))
+      | .forPos body =>
+        let s0 := s.push .loop
+        if s.params = 0 ∧ !body.isEmpty then ({ s0 with status := SUCCESS }.pop, .continue_)
+        else
+          let y := execForN fuel s0 s.params body
+          (y.1.pop, y.2)
+      | .polled c =>
+        let x := execN fuel s c
+        pollWith (execList fuel) x.1 x.2
       | .call body =>
         -- `execute_function_body`: only `Return` is caught; then the tail of `SimpleCommand::execute`
         -- (a function call is a simple command): `apply_errexit`
+        -- (the positional parameters of the call are not modelled here — a call has no arguments in this syntax and
+        -- the generator keeps `for v do` / `set --` out of function bodies; C02's `Exec.call` models them)
         let y := execSeq (execN fuel) s body
         (match y.2 with
          | .break_ (.return_ e) =>
@@ -216,7 +232,7 @@ mutual
       | r =>
         let c2 := y.1.applyResult r
         let final' := if c2.status ≠ 0 ∨ !s.pipefail then c2.status else final
-        execPipeN fuel { s with trace := c2.trace } rest final'
+        execPipeN fuel { s with trace := c2.trace, pending := c2.pending } rest final'
 
   /-- the iteration of `for_loop::execute` (the variable itself is not modelled) -/
   def execForN : Nat → St → Nat → List NCmd → St × Res
